@@ -912,6 +912,42 @@ def expand(prog: 'object') -> list[str]:
                                             log.append(f'{caller.short}: expanded table search of new helper {h.short} (loop over the constant table unrolled)')
                                             changed = True
                                             done = True
+                        if not done and isinstance(st, (ast.Return, ast.Assign, ast.Expr, ast.AnnAssign)):
+                            # --- F shape: a factory `def helper(p...): def g(q...): ...; return g` called inside the statement:
+                            # g, with the factory's arguments in place of its parameters, becomes a nested function of the caller
+                            for sub in list(ast.walk(st)):
+                                if not isinstance(sub, ast.Call):
+                                    continue
+                                r = resolve(caller, sub)
+                                if not r or r[0] is caller:
+                                    continue
+                                h, is_m, recv = r
+                                hb = [x for x in h.node.body if not (isinstance(x, ast.Expr) and isinstance(x.value, ast.Constant))]
+                                if not (len(hb) == 2 and isinstance(hb[0], ast.FunctionDef) and not hb[0].decorator_list and isinstance(hb[1], ast.Return)
+                                        and isinstance(hb[1].value, ast.Name) and hb[1].value.id == hb[0].name):
+                                    continue
+                                b = _bind(sub, h.node, is_m, recv)
+                                if b is None or not all(_simple(v_) for v_ in b.values()):
+                                    continue
+                                g = hb[0]
+                                gparams = {x.arg for x in g.args.posonlyargs + g.args.args + g.args.kwonlyargs}
+                                if gparams & set(b) or any(isinstance(n, ast.Name) and n.id in b and isinstance(n.ctx, ast.Store) for n in ast.walk(g)):
+                                    continue
+                                names_here = {n.id for n in ast.walk(caller.node) if isinstance(n, ast.Name)} | {n.name for n in ast.walk(caller.node) if isinstance(n, ast.FunctionDef) and n is not caller.node}
+                                counter += 1
+                                gname = g.name if g.name not in names_here else f'{g.name}__{h.name.lstrip("_")}{counter}'
+                                gcopy = _Subst(b, {}, h.module, sub).visit(copy.deepcopy(g))
+                                gcopy.name = gname
+                                ast.copy_location(gcopy, st)
+                                _replace_child(st, sub, ast.copy_location(ast.Name(id=gname, ctx=ast.Load()), sub))
+                                blk.insert(i, gcopy)
+                                ast.fix_missing_locations(gcopy)
+                                touched[caller.qualname] = caller
+                                log.append(f'{caller.short}: factory {h.short} replaced by the nested function {gname} it returns')
+                                changed = True
+                                done = True
+                                i += 1
+                                break
                         if not done:
                             # --- E shape anywhere inside the statement (not inside nested defs)
                             here = False
